@@ -168,6 +168,7 @@ func organizeBitfieldOp(tableObj *orderedMap, tableKey, valueKey string, opType 
 		var pe error
 		value, pe = strconv.ParseInt(opTable.mustGet(valueKey).(string), 10, 64)
 		if pe != nil {
+			errorText = "ERR value is not an integer or out of range"
 			valid = false
 			return
 		}
